@@ -81,7 +81,9 @@ func genC15(t *rapid.T) interface{} {
 		op.V = val.Draw(t, "v")
 		switch op.Op {
 		case "newset":
-			switch rapid.IntRange(0, 4).Draw(t, "setkind") {
+			switch rapid.IntRange(0, 5).Draw(t, "setkind") {
+			case 5: // values at the edges of machine words and of small bit masks
+				op.Vals = rapid.SliceOfN(rapid.SampledFrom([]int{0, 1, 7, 8, 31, 32, 33, 62, 63, 64, 65, 127, 128, 255, 256, 65535, 65536, 1<<31 - 1, 1 << 31, 1 << 32, 1<<62 + 3, 1<<63 - 1, -1, -64, -1 << 31, -1 << 63}), 1, 6).Draw(t, "edgevals")
 			case 4: // a long set (size ratios of 4 and more against the small ones)
 				op.Vals = rapid.SliceOfN(rapid.IntRange(-2, 20), 8, 16).Draw(t, "bigvals")
 			case 0: // low values with duplicates: spare capacity
@@ -123,6 +125,9 @@ func genC15(t *rapid.T) interface{} {
 			sets = append(sets, norm(append(append([]int{}, sets[op.I]...), sets[op.J]...)))
 		case "newmap":
 			op.Map = rapid.MapOfN(val, rapid.IntRange(0, 3), 0, 4).Draw(t, "map")
+			if rapid.IntRange(0, 4).Draw(t, "edgekeys") == 0 {
+				op.Map[rapid.SampledFrom([]int{63, 64, 65, 128, 1 << 31, 1<<63 - 1, -1 << 63}).Draw(t, "edgekey")] = 1 + rapid.IntRange(0, 2).Draw(t, "edgeval")
+			}
 			nm++
 		case "inc":
 			op.I = pick(nm, lastMap, "i")
@@ -187,6 +192,11 @@ func checkC15(ci interface{}, st *Stats) error {
 			sort.Ints(wk)
 			if fmt.Sprint(keys) != fmt.Sprint(wk) {
 				return fmt.Errorf("after step %d (%s): map #%d has keys %v, the model says %v", step, what, i, keys, wk)
+			}
+			for k := range mmaps[i] {
+				if m.Get(k) != mmaps[i][k] {
+					return fmt.Errorf("after step %d (%s): map #%d[%d] = %d, the model says %d", step, what, i, k, m.Get(k), mmaps[i][k])
+				}
 			}
 			for k := -3; k <= 21; k++ {
 				if m.Get(k) != mmaps[i][k] {
